@@ -214,6 +214,8 @@ def hyp_body(rec, v):
 
 def run(ctx):
     o = oracle()
+    from ._shared import selftest_iban
+    ctx.extra["oracle_selftest"] = selftest_iban()
     ctx.rule = ("Texts: for each of the bundled countries a set of oracle-constructed valid IBANs (random, all-minimum, "
                 "all-maximum [, letters-only, digits-only]); around each the complete single-replacement neighbourhood "
                 "(every position x every character of alphabet W), every length 0..40, every deletion/duplication/"
